@@ -175,13 +175,30 @@ static long pool_locked() {
 }
 
 void pctl::check_lock_free() {
-    if (pool_locked()) vh::print_obs({666, (long)pctl::t_id});
+    if (pool_locked()) {
+        // a scheduling point reached with the pool mutex held: the next thread would block for real
+        vh::print_obs({666, (long)pctl::t_id});
+        std::printf("END\n");
+        std::fflush(stdout);
+        std::_Exit(42);
+    }
+}
+
+static void check_destroyed() {
+    if (!g_destroyed) return;
+    // a thread is about to lock the mutex of a pool whose destructor has returned: report instead of hanging on freed memory
+    vh::print_obs({888, (long)pctl::t_id});
+    std::printf("END\n");
+    std::fflush(stdout);
+    std::_Exit(42);
 }
 
 static void hook_point(const char *id) {
     if (pctl::t_id < 0 || !pctl::G.active) return;
     if (std::strcmp(id, "p_lock")) return;   // points of other components (future, awaiter) are not scheduling points here
+    check_destroyed();
     pctl::yield(pctl::AtPoint, ctl::point_code(id), nullptr);
+    check_destroyed();
     if (t_pending) {
         t_pending->submitted = true;
         t_pending = nullptr;
